@@ -43,6 +43,10 @@ func DemuxData(data []byte, cfg DemuxCfg, log *core.Log, maxCalls int, extra ...
 	return pullData(dmx, sr, log, maxCalls), sr
 }
 
+func newDemuxer(r io.Reader, cfg DemuxCfg, extra ...func(*astits.Demuxer)) *astits.Demuxer {
+	return astits.NewDemuxer(context.Background(), r, demuxOpts(cfg, extra...)...)
+}
+
 func pullData(dmx *astits.Demuxer, sr *world.SimReader, log *core.Log, maxCalls int) []DResult {
 	var res []DResult
 	for i := 0; i < maxCalls; i++ {
